@@ -450,12 +450,15 @@ class AstInterpreter(InterpreterBase):
         asses = self.find_potential_writes(node)
         for ass in asses:
             self.cur_assignments[ass].append((self.nesting.copy(), UnknownValue()))
+        self.loop_depth += 1
         try:
             self.evaluate_codeblock(node.block)
         except ContinueRequest:
             pass
         except BreakRequest:
             pass
+        finally:
+            self.loop_depth -= 1
         for ass in asses:
             self.cur_assignments[ass].append((self.nesting.copy(), UnknownValue())) # In case the foreach loops 0 times.
 
